@@ -299,9 +299,9 @@ func H_C03_Decide() {
 	validDecision := rt.Or(decision == enttypes.StatusAccepted, decision == enttypes.StatusRejected)
 	expectOK := rt.And(rt.And(authorised, target == id), rt.And(rt.And(status == enttypes.StatusRaised, !alreadyDecided), validDecision))
 	rt.Assert("C13.decide-only-authorised-signer", rt.Implies(err == nil, authorised))
-	rt.Assert("C03.decide-only-raised", rt.Implies(err == nil, rt.And(target == id, status == enttypes.StatusRaised)))
-	rt.Assert("C03.decide-at-most-once-per-signer", rt.Implies(err == nil, !alreadyDecided))
-	rt.Assert("C03.decide-accepted-iff-entitled", rt.Iff(err == nil, expectOK))
+	rt.Assert("C02+C03.decide-only-raised", rt.Implies(err == nil, rt.And(target == id, status == enttypes.StatusRaised)))
+	rt.Assert("C02+C03.decide-at-most-once-per-signer", rt.Implies(err == nil, !alreadyDecided))
+	rt.Assert("C02+C03.decide-accepted-iff-entitled", rt.Iff(err == nil, expectOK))
 	if err != nil {
 		rt.Reach("decide-rejected")
 		rt.Assert("C03+C13+C14.rejected-decision-changes-nothing", ee.MS.SameAs(snap))
@@ -312,7 +312,7 @@ func H_C03_Decide() {
 	want := po
 	want.Decisions = append(append(enttypes.PurchaseOrderDecisions{}, po.Decisions...),
 		enttypes.PurchaseOrderDecision{Signer: signerAddr.String(), Decision: decision, DecisionTime: uint64(now.Unix())})
-	rt.Assert("C03.decision-appended-only", orderEq(np, want))
+	rt.Assert("C02+C03.decision-appended-only", orderEq(np, want))
 	rt.Assert("C03.decide-keeps-queues", rt.And(k.PurchaseOrderIsInRaisedQueue(ctx, id), !k.PurchaseOrderIsInAcceptedQueue(ctx, id)))
 	rt.Assert("C02.decide-mints-nothing", rt.IntEq(ee.Bank.SupplyOf("nund"), sdk.ZeroInt()))
 }
@@ -476,7 +476,7 @@ func H_C03_BeginBlock() {
 	rt.Assert("C02.nothing-burned", ee.Bank.Burned.IsZero())
 	rt.Assert("C03+C04.locked-credited-exactly", rt.And(rt.IntEq(k.GetLockedUndAmountForAccount(ctx, Addr(0)).Amount, books.Locked[0].Add(add[0])),
 		rt.IntEq(k.GetLockedUndAmountForAccount(ctx, Addr(1)).Amount, books.Locked[1].Add(add[1]))))
-	rt.Assert("C04+C17.books-balance", booksBalanced(ee, books, books.Locked[0].Add(add[0]), books.Locked[1].Add(add[1]), books.Spent[0], books.Spent[1]))
+	rt.Assert("C04+C06+C14+C15+C17.books-balance", booksBalanced(ee, books, books.Locked[0].Add(add[0]), books.Locked[1].Add(add[1]), books.Spent[0], books.Spent[1]))
 	rt.Assert("C05.mint-leaves-liquid-balance", rt.And(rt.IntEq(ee.Bank.Bal(Addr(0), "nund"), bal0), rt.IntEq(ee.Bank.Bal(Addr(1), "nund"), bal1)))
 	rt.Assert("C04.spent-unchanged-by-mint", rt.And(rt.IntEq(k.GetSpentEFUNDAmountForAccount(ctx, Addr(0)).Amount, books.Spent[0]), rt.IntEq(k.GetSpentEFUNDAmountForAccount(ctx, Addr(1)).Amount, books.Spent[1])))
 	// raised orders are tallied by the statement's rule; nothing accepted now is minted now
